@@ -140,7 +140,8 @@ Inductive pop :=
 | PSpawn (pid : Z)                (* spawn(), parent side *)
 | PRunning                        (* transition(): STARTING -> RUNNING *)
 | PStop                           (* stop(): signal sent, STOPPING *)
-| PFinish (last : bytes) (w : wres) (quick : bool).  (* reaped: finish() *)
+| PFinish (last : bytes) (w : wres) (quick : bool)   (* reaped: finish() *)
+| PStopFail.                      (* stop(): signalling fails (not ESRCH): process state UNKNOWN, pid kept *)
 
 Section Model.
 Variable h : handler.
@@ -176,8 +177,10 @@ Definition proc_step (i : nat) (p : proc) (op : pop) : proc * list sout :=
     else (p, [SInapplicable])
   | PFinish last w quick =>
     let st := p_state p in
+    (* finish() looks at process state UNKNOWN first (the child of a process that could not be signalled) *)
     let ok := negb (p_pid p =? 0) &&
-              (if p_killing p then pstate_eqb st PS_STOPPING
+              (if pstate_eqb st PS_UNKNOWN then true
+               else if p_killing p then pstate_eqb st PS_STOPPING
                else if quick then pstate_eqb st PS_STARTING
                else pstate_eqb st PS_RUNNING || pstate_eqb st PS_STARTING) in
     if negb ok then (p, [SInapplicable])
@@ -191,7 +194,8 @@ Definition proc_step (i : nat) (p : proc) (op : pop) : proc * list sout :=
          dispatcher; finish() goes on (the dispatchers are dropped below anyway) *)
       match write_event p1 w with
       | (p2, _) =>
-        let st' := if p_killing p then PS_STOPPED else if quick then PS_BACKOFF else PS_EXITED in
+        let st' := if pstate_eqb st PS_UNKNOWN then PS_UNKNOWN      (* no state change *)
+                   else if p_killing p then PS_STOPPED else if quick then PS_BACKOFF else PS_EXITED in
         let l2 := p_l p2 in
         (* pid = 0; pipes = {}; dispatchers = {}; rejected event *)
         let o2 := match l_event l2 with Some e => [ORejected (Some e)] | None => [] end in
@@ -199,6 +203,12 @@ Definition proc_step (i : nat) (p : proc) (op : pop) : proc * list sout :=
              (p_accepted p2) (p_broken p2) (p_envs p2),
          outs_of i (o1 ++ o2))
       end
+  | PStopFail =>
+    if negb (p_pid p =? 0) &&
+       (match p_state p with PS_RUNNING | PS_STARTING => true | _ => false end)
+    then (mkP PS_UNKNOWN (p_pid p) false (p_l p) (p_has_stdin p) (p_ibuf p) (p_iclosed p)
+              (p_accepted p) (p_broken p) (p_envs p), [])
+    else (p, [SInapplicable])
   end.
 
 Definition sys := list proc.
